@@ -1,9 +1,12 @@
 """C25 -- step scans visit exactly the documented trajectory.
 
-The real plans (scan, inner_product_scan, list_scan, grid_scan, list_grid_scan, scan_nd, x2x_scan) are executed
+Two layers.  c25_patterns (traced): the real ``plan_patterns`` products that compute the trajectories run
 symbolically (numpy replaced by ``symnp``) with start/stop/list values as symbolic reals and point counts, motor
-counts and snake settings chosen by solver forks; a message consumer plays the RunEngine's part (applies ``set``,
-answers ``read``/``locate`` with the tracked positions).  Reference from the docstrings: point i of an inner-product
+counts and snake settings chosen by solver forks; every point of the resulting cycler is compared with the
+reference.  c25_plans (schedule): the real plans (scan, inner_product_scan, list_scan, grid_scan, list_grid_scan,
+scan_nd, x2x_scan) run natively for every solver-chosen combination of plan, counts, snake setting and value
+pattern (including repeated positions, which make move_per_step skip a set); a message consumer plays the
+RunEngine's part (applies ``set``, answers ``read``/``locate`` with the tracked positions).  Reference from the docstrings: point i of an inner-product
 scan puts every motor at start + i*(stop-start)/(num-1); an outer-product scan is row-major with the first motor
 slowest and a snaked axis reversed on every odd pass of the next slower axis.  Checked: the motors' positions at
 every reading equal the reference point (sets may be skipped only when the position is already right), one
@@ -12,7 +15,7 @@ metadata: num_points, num_intervals, shape, extents, snaking.
 """
 from vlib import symnp
 from vlib.harness import Harness, register
-from vlib.symx import Real, fork_bool, fork_int, goal, only_shard
+from vlib.symx import Real, fork_bool, fork_int, goal, notrace, only_shard
 
 KINDS = ["scan", "inner_product_scan", "list_scan", "grid_scan", "list_grid_scan", "scan_nd", "x2x_scan"]
 
@@ -115,30 +118,53 @@ def make(P):
     symnp.selftest()
     N = P["N"]
 
-    def h(kind: int, nm: int, n1: int, n2: int, snk: int, a1: Real, b1: Real, a2: Real, b2: Real, v1: Real, v2: Real, v3: Real, w1: Real, w2: Real, w3: Real, i1: Real, i2: Real, add: bool) -> str:
+    VALS = [0.0, 1.0, -1.0, 2.0]
+
+    def h(kind: int, nm: int, n1: int, n2: int, snk: int, a1: int, b1: int, a2: int, b2: int, v1: int, v2: int, v3: int, w1: int, w2: int, w3: int, i1: int, i2: int, add: bool) -> str:
         k = fork_int(kind, 0, len(KINDS) - 1)
+        nn1 = fork_int(n1, 1, N)
+        # value pattern: every number is one of four exactly representable values (repeats included on purpose)
+        name = KINDS[k]
+        z = 0
+        nm_ = fork_int(nm, 1, 2) if name in ("scan", "inner_product_scan", "list_scan") else 2
+        add_ = fork_bool(add) if name == "scan_nd" else False
+        n2_ = fork_int(n2, 1, N) if (name in ("grid_scan", "list_grid_scan") or (name == "scan_nd" and not add_)) else 1
+        snk_ = fork_int(snk, 0 if name == "grid_scan" else 1, 3) if name in ("grid_scan", "list_grid_scan") else 0
+        only_shard(k * 8 + nn1 + 29 * n2_ + 97 * snk_ + 7 * nm_ + (3 if add_ else 0), P)
+        uses_lin = name in ("scan", "inner_product_scan", "grid_scan", "x2x_scan")
+        a1, b1 = (VALS[fork_int(x, 0, 3)] for x in (a1, b1)) if uses_lin else (0.0, 1.0)
+        a2, b2 = (VALS[fork_int(x, 0, 3)] for x in (a2, b2)) if (uses_lin and name != "x2x_scan" and nm_ == 2) else (0.0, 1.0)
+        if uses_lin:
+            v1 = v2 = v3 = w1 = w2 = w3 = 0.0
+        else:
+            v1, v2, v3 = [VALS[fork_int(x, 0, P["lv"])] for x in (v1, v2, v3)[:nn1]] + [0.0] * (3 - nn1)
+            nw = n2_ if (name == "list_grid_scan" or (name == "scan_nd" and not add_)) else nn1
+            w1, w2, w3 = ([VALS[fork_int(x, 0, P["lv"])] for x in (w1, w2, w3)[:nw]] + [0.0] * (3 - nw)) if nm_ == 2 else (0.0, 0.0, 0.0)
+        i1, i2 = 10.0, 20.0
+        with notrace():
+            return run_plan(k, nm_, nn1, n2_, snk_, a1, b1, a2, b2, v1, v2, v3, w1, w2, w3, i1, i2, add_)
+
+    def run_plan(k, nm, n, n2, snk, a1, b1, a2, b2, v1, v2, v3, w1, w2, w3, i1, i2, add):
         name = KINDS[k]
         m1, m2, det = Motor("m1"), Motor("m2"), Det()
         pos = {"m1": i1, "m2": i2}
         tags = []
-        n = fork_int(n1, 1, N)
-        only_shard(k * 8 + n, P)
-        with symnp.installed(bp, pp, bu, bps):
+        if True:
             if name in ("scan", "inner_product_scan"):
-                two = fork_int(nm, 1, 2) == 2
+                two = nm == 2
                 args = [m1, a1, b1] + ([m2, a2, b2] if two else [])
                 gen = bp.scan([det], *args, num=n) if name == "scan" else bp.inner_product_scan([det], n, *args)
                 ref = [dict(m1=lin(a1, b1, n, i), **({"m2": lin(a2, b2, n, i)} if two else {})) for i in range(n)]
                 md_want = dict(num_points=n, num_intervals=n - 1)
             elif name == "list_scan":
-                two = fork_int(nm, 1, 2) == 2
+                two = nm == 2
                 l1, l2 = [v1, v2, v3][:n], [w1, w2, w3][:n]
                 gen = bp.list_scan([det], m1, l1, *([m2, l2] if two else []))
                 ref = [dict(m1=l1[i], **({"m2": l2[i]} if two else {})) for i in range(n)]
                 md_want = dict(num_points=n, num_intervals=n - 1)
             elif name in ("grid_scan", "list_grid_scan"):
-                nn2 = fork_int(n2, 1, N)
-                s = fork_int(snk, 0 if name == "grid_scan" else 1, 3)  # None (grid_scan only) / False / True / [m2]
+                nn2 = n2
+                s = snk  # None (grid_scan only) / False / True / [m2]
                 snake_axes = [None, False, True, [m2]][s]
                 snaked = s >= 2
                 if name == "grid_scan":
@@ -158,12 +184,12 @@ def make(P):
                     goal("snaked-grid")
             elif name == "scan_nd":
                 l1 = [v1, v2, v3][:n]
-                if fork_bool(add):
+                if add:
                     l2 = [w1, w2, w3][:n]
                     cyc = cycler(m1, l1) + cycler(m2, l2)
                     ref = [dict(m1=l1[i], m2=l2[i]) for i in range(n)]
                 else:
-                    nn2 = fork_int(n2, 1, N)
+                    nn2 = n2
                     l2 = [w1, w2, w3][:nn2]
                     cyc = cycler(m1, l1) * cycler(m2, l2)
                     ref = [dict(m1=x, m2=y) for x in l1 for y in l2]
@@ -213,10 +239,74 @@ def _fns():
             pp.outer_list_product, bps.one_nd_step, bps.move_per_step]
 
 
-register(Harness("c25_scans", "C25", make, {"quick": dict(N=3, shards=16, budget_s=400, per_path_s=60), "thorough": dict(N=3, shards=56, budget_s=3000, per_path_s=120)},
-                 goals=["three-or-more-points", "snaked-grid"], functions=_fns, mode="traced", float_model="real", opaque_text=True,
+def make_patterns(P):
+    import bluesky.plan_patterns as pp
+    import bluesky.utils as bu
+
+    symnp.selftest()
+    N = P["N"]
+
+    def h(kind: int, nm: int, n1: int, n2: int, snk: int, a1: Real, b1: Real, a2: Real, b2: Real, v1: Real, v2: Real, v3: Real, w1: Real, w2: Real, w3: Real) -> str:
+        k = fork_int(kind, 0, 3)
+        n = fork_int(n1, 1, N)
+        only_shard(k * 8 + n, P)
+        who = ["inner_product", "outer_product", "inner_list_product", "outer_list_product"][k]
+        M1, M2 = Motor("m1"), Motor("m2")
+        with symnp.installed(pp, bu):
+            if k == 0:
+                two = fork_int(nm, 1, 2) == 2
+                cyc = pp.inner_product(n, [M1, a1, b1] + ([M2, a2, b2] if two else []))
+                ref = [dict(m1=lin(a1, b1, n, i), **({"m2": lin(a2, b2, n, i)} if two else {})) for i in range(n)]
+            elif k == 2:
+                two = fork_int(nm, 1, 2) == 2
+                l1, l2 = [v1, v2, v3][:n], [w1, w2, w3][:n]
+                cyc = pp.inner_list_product([M1, l1] + ([M2, l2] if two else []))
+                ref = [dict(m1=l1[i], **({"m2": l2[i]} if two else {})) for i in range(n)]
+            else:
+                nn2 = fork_int(n2, 1, N)
+                snaked = fork_bool(snk != 0)
+                if k == 1:
+                    cyc = pp.outer_product([M1, a1, b1, n, M2, a2, b2, nn2, snaked])
+                    slow, fast = [lin(a1, b1, n, i) for i in range(n)], [lin(a2, b2, nn2, j) for j in range(nn2)]
+                else:
+                    slow, fast = [v1, v2, v3][:n], [w1, w2, w3][:nn2]
+                    cyc = pp.outer_list_product([M1, slow, M2, fast], [M2] if snaked else False)
+                ref = []
+                for i in range(n):
+                    row = fast[::-1] if (snaked and i % 2 == 1) else fast
+                    ref += [dict(m1=slow[i], m2=x) for x in row]
+                if snaked and n >= 2 and nn2 >= 2:
+                    goal("snaked-grid")
+            pts = [{m.name: v for m, v in pt.items()} for pt in cyc]
+        if len(pts) != len(ref):
+            return f"{who}:wrong-number-of-points"
+        if len(ref) >= 3:
+            goal("three-or-more-points")
+        for got, want in zip(pts, ref):
+            if set(got.keys()) != set(want.keys()):
+                return f"{who}:wrong-motors"
+            for mn, x in want.items():
+                if got[mn] != x:
+                    return f"{who}:point-differs-from-the-documented-trajectory"
+        return ""
+
+    return h
+
+
+def _fns_p():
+    import bluesky.plan_patterns as pp
+
+    return [pp.inner_product, pp.outer_product, pp.inner_list_product, pp.outer_list_product]
+
+
+register(Harness("c25_patterns", "C25", make_patterns, {"quick": dict(N=3, shards=8, budget_s=300, per_path_s=60), "thorough": dict(N=4, shards=16, budget_s=2000, per_path_s=120)},
+                 goals=["three-or-more-points", "snaked-grid"], functions=_fns_p, mode="traced", float_model="real", opaque_text=True,
+                 symbolic="pattern in {inner_product, outer_product, inner_list_product, outer_list_product}; 1-2 motors; point counts in [1,N] per axis; snaking on/off; every start, stop and list entry a symbolic real",
+                 out_of_bound="logspace (log_scan: transcendental, not encodable over reals); more than 2 motors or N points per axis; floating-point rounding (positions are exact reals)",
+                 stubs="numpy replaced by vlib/symnp.py (linspace, prod, repeat, tile, concatenate), validated against numpy on concrete samples each run", require_exhaustive=True))
+register(Harness("c25_plans", "C25", make, {"quick": dict(N=3, lv=1, shards=32, budget_s=400, per_path_s=60), "thorough": dict(N=3, lv=3, shards=56, budget_s=3000, per_path_s=120)},
+                 goals=["three-or-more-points", "snaked-grid"], functions=_fns, mode="schedule",
                  symbolic="plan in {scan, inner_product_scan, list_scan, grid_scan, list_grid_scan, scan_nd (sum and product cyclers), x2x_scan}; 1-2 motors; point counts in [1,N] per axis; "
-                 "snake_axes in {None, False, True, [m2]}; every start, stop, list entry and initial position a symbolic real",
-                 out_of_bound="log_scan (logspace is transcendental: not encodable over reals); more than 2 motors or N points per axis; floating-point rounding (positions are exact reals); custom per_step",
-                 stubs="numpy replaced by vlib/symnp.py (linspace, prod, repeat, tile, concatenate), validated against numpy on concrete samples each run; a message consumer stands in for the RunEngine (C01-C13 cover the engine)",
-                 require_exhaustive=True))
+                 "snake_axes in {None, False, True, [m2]}; every start, stop and list entry one of the exactly representable values {0, 1, -1, 2} (repeated positions included)",
+                 out_of_bound="log_scan; values other than the four (the plans only forward them to plan_patterns, whose arithmetic c25_patterns covers for all reals); custom per_step",
+                 stubs="a message consumer stands in for the RunEngine (C01-C13 cover the engine)", require_exhaustive=True))
